@@ -5,6 +5,7 @@ package main
 // (values become ite terms).  Falls back to plain forking whenever the states do not merge.
 
 import (
+	"os"
 	"fmt"
 	"math/big"
 
@@ -35,9 +36,20 @@ func postDominators(fn *ssa.Function) *pdomInfo {
 		}
 		return s
 	}
+	// Early exits (returns in the middle of the function, panics) are ignored when looking for join points: the
+	// paths that take them end there, and the remaining paths still meet at the join.  Only the last returning
+	// block counts as the exit.
+	mainExit := -1
+	for i, b := range fn.Blocks {
+		if len(b.Succs) == 0 && len(b.Instrs) > 0 && b != fn.Recover && len(b.Preds) > 0 || (len(b.Succs) == 0 && n == 1) {
+			if _, isRet := b.Instrs[len(b.Instrs)-1].(*ssa.Return); isRet {
+				mainExit = i
+			}
+		}
+	}
 	pd := make([][]bool, n)
 	for i, b := range fn.Blocks {
-		if len(b.Succs) == 0 {
+		if len(b.Succs) == 0 && (i == mainExit || mainExit < 0) {
 			s := make([]bool, n+1)
 			s[i], s[n] = true, true
 			pd[i] = s
@@ -311,7 +323,10 @@ func (c *Ctx) mergeStates(ss []*State) (out []*State) {
 	}
 	defer func() {
 		if r := recover(); r != nil {
-			if _, ok := r.(VerErr); ok {
+			if ve, ok := r.(VerErr); ok {
+				if os.Getenv("GOVC_DEBUG_MERGE") != "" {
+					fmt.Println("merge failed:", ve.Msg)
+				}
 				out = ss // not mergeable: keep forking
 				return
 			}
